@@ -282,9 +282,9 @@ pub fn install_panic_hook() {
 /// Run `f`, catching panics; the panic location is returned.
 pub fn catch<T>(f: impl FnOnce() -> T) -> Result<T, PanicInfo> {
   LAST_PANIC.with(|p| *p.borrow_mut() = None);
-  QUIET.with(|q| *q.borrow_mut() = true);
+  let prev = QUIET.with(|q| std::mem::replace(&mut *q.borrow_mut(), true));
   let r = std::panic::catch_unwind(std::panic::AssertUnwindSafe(f));
-  QUIET.with(|q| *q.borrow_mut() = false);
+  QUIET.with(|q| *q.borrow_mut() = prev);
   match r {
     Ok(v) => Ok(v),
     Err(_) => Err(LAST_PANIC.with(|p| p.borrow_mut().take()).unwrap_or(
